@@ -53,6 +53,9 @@ def summarize(out, log):
     out.count('users:%d' % log['n_users'])
     for k in log['user_kinds'][1:]:
         out.count('key:' + k)
+    if log.get('cmd_clones'):
+        out.count('key:clone-made-by-the-command(add-key --clone)', len(log['cmd_clones']))
+        out.count('key:issued-from-a-command-made-clone', log.get('keys_issued_from_cmd_clone', 0))
     cl = log['cfg'].get('clients')
     if cl is not None:
         out.count('clients:cache-' + cl['topology'])
